@@ -180,7 +180,7 @@ Proof.
   specialize (Hargs (t_args c) 0 s2 H2). simpl in Hargs.
   set (s4 := (fix go (i : nat) (vs : list nat) (s : state) {struct vs} : state := _) 0 (t_args c) s2) in *.
   clearbody s4.
-  generalize (t_res c :: t_args c). intros l. revert s4 Hargs.
+  generalize (t_res c :: t_task c :: t_args c). intros l. revert s4 Hargs.
   induction l as [|v l IH]; intros s4 H4; cbn [fold_left]; [exact H4|].
   apply IH. destruct (memn v (vals (vis s4))); [exact H4|simpl; exact H4].
 Qed.
